@@ -311,6 +311,77 @@ class Function:
                     dq.append(y)
         return None
 
+    def reaching_stores(self, aid, at):
+        """direct stores to the alloca `aid` that may reach the instruction `at` (backward CFG walk, a store
+        kills the walk); the list contains None when the function entry is reached without a store"""
+        out = []
+        seen = set()
+        dq = deque([(at.block, at.idx - 1)])
+        while dq:
+            b, k = dq.popleft()
+            blk = self.blocks[b]
+            hit = False
+            while k >= 0:
+                i = blk[k]
+                if i.op == 'store' and self.strip(i.ops[1]) == ['i', aid]:
+                    if i not in out:
+                        out.append(i)
+                    hit = True
+                    break
+                k -= 1
+            if hit:
+                continue
+            ps = self.pred[b]
+            if b == 0 and None not in out:
+                out.append(None)
+            for p in ps:
+                if p not in seen:
+                    seen.add(p)
+                    dq.append((p, len(self.blocks[p]) - 1))
+        return out
+
+    def value_sources(self, o, _seen=None):
+        """leaves an integer value is computed from: follows casts, arithmetic, selects/phis and loads of plain locals
+        (through their reaching stores).  Leaves: ('call', name), ('arg', i), ('const', v), ('mem', access path),
+        ('undef',) for a local read before any store"""
+        seen = _seen if _seen is not None else set()
+        o = self.strip(o)
+        if o[0] in ('c', 'cbig', 'n'):
+            return {('const', self.const_of(o))}
+        if o[0] == 'a':
+            return {('arg', o[1])}
+        if o[0] != 'i':
+            return {('mem', self.expr(o))}
+        i = self.insts[o[1]]
+        if i.id in seen:
+            return set()
+        seen.add(i.id)
+        if i.op == 'call':
+            return {('call', base(i.callee) if i.callee else '?')}
+        if i.op == 'load':
+            a = self.strip(i.ops[0])
+            if a[0] == 'i' and self.insts[a[1]].op == 'alloca':
+                aid = a[1]
+                if aid in self.arg_allocas() and all(u.op == 'load' or (u.op == 'store' and u.block == 0 and u.ops[0][0] == 'a') for u in self.users.get(aid, ())):
+                    return {('arg', self.arg_allocas()[aid])}
+                if all(u.op in ('load', 'store') and (u.op == 'load' or self.strip(u.ops[1]) == ['i', aid]) for u in self.users.get(aid, ())):
+                    out = set()
+                    for s in self.reaching_stores(aid, i):
+                        out |= {('undef',)} if s is None else self.value_sources(s.ops[0], seen)
+                    return out
+            return {('mem', self.expr(['i', i.id]))}
+        if i.op in ('phi',):
+            out = set()
+            for v in i.ops:
+                out |= self.value_sources(v[0] if isinstance(v, list) and v and isinstance(v[0], list) else v, seen)
+            return out
+        if i.op in ('add', 'sub', 'mul', 'udiv', 'sdiv', 'urem', 'srem', 'shl', 'lshr', 'ashr', 'and', 'or', 'xor', 'select', 'icmp'):
+            out = set()
+            for v in i.ops:
+                out |= self.value_sources(v, seen)
+            return out
+        return {('mem', self.expr(['i', i.id]))}
+
     # ---------------- value helpers
     def strip(self, o):
         """look through casts"""
